@@ -157,7 +157,8 @@ impl OligoComputer {
     fn vectorise_mmap(&self) -> Result<(), String> {
         // only works for normalised (we need fixed length outputs)
         assert!(self.norm);
-        let per_line_size = self.kcount * (NUMBER_SIZE + 1);
+        // kcount numbers, kcount - 1 delimiters (of any length) and a newline
+        let per_line_size = self.kcount * NUMBER_SIZE + (self.kcount - 1) * self.delim.len() + 1;
         // pre-calculate file size
         let mut estimated_file_size = {
             let format = SeqFormat::get(&self.in_path).unwrap();
